@@ -263,6 +263,11 @@ func Block(desc string, pred func() bool) {
 // option; set from the environment variable VERIF_DENSE). See Stmt.
 var Dense = os.Getenv("VERIF_DENSE") != ""
 
+// DenseFull (VERIF_DENSE=full): statement points also inside critical sections. A thread parked inside one keeps the
+// others that need the same lock blocked, but lets in those that touch the same data WITHOUT the lock (the lock-free
+// fast path of a double-checked initialisation, a reader that was never given the lock).
+var DenseFull = os.Getenv("VERIF_DENSE") == "full"
+
 // Stmt is the statement-level scheduling point the rewriter's -dense option puts in front of every statement
 // of the chosen files. It is a point only while the running thread holds no shim lock: code inside a critical
 // section is already ordered against everybody who takes the lock, and code outside one - a check-then-act
@@ -274,7 +279,7 @@ func Stmt(site string) {
 		return
 	}
 	c := s.cur
-	if c == nil || c.held > 0 {
+	if c == nil || (c.held > 0 && !DenseFull) {
 		return
 	}
 	if Strict && c.goid != goid() {
